@@ -338,21 +338,30 @@ class C17:
                 pd, pf = [dfrom(int(h, 16)) for h in pw[n].split("/")]
                 ev, ea = exact.get(g, (Fraction(0), Fraction(0)))
                 v = listed.get(g, 0.0)
-                if pd != pd and any(xs[d] == t.knots[d][t.naxes[d]] and t.knots[d][t.naxes[d] - 1] == t.knots[d][t.naxes[d]] for d in range(t.ndim)):
+                if pd != pd and any(xs[d] == t.knots[d][t.naxes[d]] and t.knots[d][t.orders[d]] == t.knots[d][t.naxes[d]] for d in range(t.ndim)):
                     stats_d17[0] += 1
-                    continue            # pointwise NaN exactly on a repeated knot at the upper end of full support: finding D17 (C01), not C17
+                    continue            # pointwise NaN where the fully supported range is the single point x: the residual of finding D17 (C01), not C17
                 okd = (v == v) and math.isfinite(v) and math.isfinite(pd) and abs(Fraction(v) - Fraction(pd)) <= 2 * K_of(t) * Fraction(1, 2 ** 53) * ea + ETA * (1 + ea)
                 okf = (v == v) and math.isfinite(v) and math.isfinite(pf) and abs(Fraction(v) - Fraction(pf)) <= 2 * K_of(t) * Fraction(1, 2 ** 24) * ea + Fraction(1, 2 ** 140) * (1 + ea)
                 if okd and okf:
                     continue
                 if v != v and rep:
                     sig, why = "C17:%s:repeated-knot->NaN" % entry, "NaN"
+                elif any(xs[d] >= t.knots[d][t.naxes[d]] and sum(1 for kk in t.knots[d] if kk == xs[d]) >= t.orders[d] + 1 for d in range(t.ndim)):
+                    # a knot of multiplicity >= order+1 at or above knots[naxes], strictly inside the range: the spline is discontinuous
+                    # there; pointwise evaluation is left-continuous from knots[naxes] upwards (C01), the grid basis right-continuous
+                    sig, why = "C17:%s:one-sided-limits-differ-at-discontinuity" % entry, ("%r" % v if g in listed else "not listed (value zero)")
                 elif g not in listed:
                     sig, why = "C17:%s:unlisted-nonzero" % entry, "not listed (value zero)"
                 else:
                     sig, why = "C17:%s:value-mismatch" % entry, "%r" % v
-                fails.append((sig, "grid point %s = %s (strictly inside the knot range): grid evaluation gives %s, pointwise evaluation %r (double) / %r (float), exact %s, sum|terms| %s"
-                              % (g, [repr(x) for x in xs], why, pd, pf, float(ev), float(ea))))
+                msg = ("grid point %s = %s (strictly inside the knot range): grid evaluation gives %s, pointwise evaluation %r (double) / %r (float), exact %s, sum|terms| %s"
+                       % (g, [repr(x) for x in xs], why, pd, pf, float(ev), float(ea)))
+                if sig.endswith(":one-sided-limits-differ-at-discontinuity"):
+                    if not any(f[0] == sig for f in fails):
+                        fails.append((sig, msg))
+                    continue            # a design-level difference (known finding): keep looking for other mismatches in this grid
+                fails.append((sig, msg))
                 break
         if iout["R"].get("cpp") != iout["R"].get("c") and not nan_eq_tokens(iout["R"].get("cpp") or [], iout["R"].get("c") or []):
             if not (iout["R"].get("cpp", ["THROW"])[0] == "THROW" and iout["R"].get("c", ["THROW"])[0] == "THROW"):
